@@ -140,9 +140,19 @@ def rule_r3(facts, col, bodies=None):
                     continue
                 if not any(body.term(x)["k"] == "return" for x in r):
                     continue
-                polls.append(sbb)
-            fin = finite_next_blocks(body)
-            comp = scc_of(body, ws.wbb, removed=set(polls) | set(fin))
+                polls.append(cbb)   # the *read* of the flag must be on the cycle, not just a test of a stale copy
+            comp0 = scc_of(body, ws.wbb, removed=set(polls))
+            fin = []
+            if comp0 is not None:
+                for nb in finite_next_blocks(body):
+                    if nb not in comp0:
+                        continue
+                    # a finite iterator bounds a cycle only if it is created outside of that cycle
+                    e = body.operand_expr(body.term(nb)["args"][0])
+                    creators = {x.bb for x in walk(e) if x.k == "call" and x.bb is not None}
+                    if not (creators & comp0):
+                        fin.append(nb)
+            comp = scc_of(body, ws.wbb, removed=set(polls) | set(fin)) if comp0 is not None else None
             if comp is None:
                 col.ok("C07.R3", key, body.where(ws.wbb),
                        "every cycle through work() passes a cancel poll whose true edge returns (polls at bb%s) or a "
